@@ -362,8 +362,28 @@ func (rw *rewriter) rewriteStmt(s ast.Stmt) []ast.Stmt {
 			if localHooks {
 				return []ast.Stmt{pointStmt(), st}
 			}
-			// a send may block until the receiver's turn: the helper releases the replay token while it waits
-			return []ast.Stmt{&ast.ExprStmt{X: schedCall("ZZSchedSend", st.Chan, st.Value)}}
+			// a send may block until the receiver's turn: the helper releases the replay token while it waits.
+			// Channel and value are evaluated once, in order; the send itself stays an ordinary send statement
+			// inside closures, so every implicit conversion (concrete value into an interface channel, untyped
+			// constant) is the compiler's business
+			tag := int(st.Pos())
+			ch := ast.NewIdent(fmt.Sprintf("zzsc%d", tag))
+			pre := []ast.Stmt{&ast.AssignStmt{Lhs: []ast.Expr{ch}, Tok: token.DEFINE, Rhs: []ast.Expr{st.Chan}}}
+			var val ast.Expr = st.Value
+			if tv, ok := rw.info.Types[st.Value]; !(ok && (tv.Value != nil || tv.IsNil())) {
+				v := ast.NewIdent(fmt.Sprintf("zzsv%d", tag))
+				pre = append(pre, &ast.AssignStmt{Lhs: []ast.Expr{v}, Tok: token.DEFINE, Rhs: []ast.Expr{st.Value}})
+				val = v
+			}
+			try := &ast.FuncLit{Type: &ast.FuncType{Params: &ast.FieldList{}, Results: &ast.FieldList{List: []*ast.Field{{Type: ast.NewIdent("bool")}}}},
+				Body: &ast.BlockStmt{List: []ast.Stmt{&ast.SelectStmt{Body: &ast.BlockStmt{List: []ast.Stmt{
+					&ast.CommClause{Comm: &ast.SendStmt{Chan: ch, Value: val}, Body: []ast.Stmt{&ast.ReturnStmt{Results: []ast.Expr{ast.NewIdent("true")}}}},
+					&ast.CommClause{Body: []ast.Stmt{&ast.ReturnStmt{Results: []ast.Expr{ast.NewIdent("false")}}}},
+				}}}}}}
+			block := &ast.FuncLit{Type: &ast.FuncType{Params: &ast.FieldList{}}, Body: &ast.BlockStmt{List: []ast.Stmt{&ast.SendStmt{Chan: ch, Value: val}}}}
+			unbuf := &ast.BinaryExpr{X: &ast.CallExpr{Fun: ast.NewIdent("cap"), Args: []ast.Expr{ch}}, Op: token.EQL, Y: &ast.BasicLit{Kind: token.INT, Value: "0"}}
+			call := &ast.ExprStmt{X: schedCall("ZZSchedSendFn", try, block, unbuf)}
+			return []ast.Stmt{&ast.BlockStmt{List: append(pre, call)}}
 		}
 	case *ast.GoStmt:
 		if rw.sched {
